@@ -17,7 +17,7 @@ RULE = ("mesh.hist1 / mesh.hist2 cases = one mesh + a history of operations, the
         "to the nodes, then every cross-section in both directions, var_as_matrix, assign; (c) f64: interpolation at every node, at mid-cells, "
         "at interior points >= 1e-6 from the nodes (and a few inside the snapping window / outside the grid, tie only), trapezium of "
         "integer and linear data, 2-D trapezium / square_trapezium of integer and bilinear data, output + read round trips at precisions 0..9; "
-        "(d) added by the special-values audit (findings/special-values-specB/C19-table.md): interpolation INSIDE the 1e-7 snapping window on both "
+        "(c2) interp-exactdiv: cells of width q/64 with fl(q*fl(1/q)) != 1 and nodal differences multiples of q, queried at the quarter points -- wherever the difference, the slope, its product with x - x_k and the sum are binary64 numbers the interpolant is demanded bit for bit; (d) added by the special-values audit (findings/special-values-specB/C19-table.md): interpolation INSIDE the 1e-7 snapping window on both "
         "sides of an interior node, right of the first and left of the last node (2^-24..2^-40 away; C19 states nothing exact there -- the "
         "neighbouring line MAY be used -- so the oracle accepts any value in the hull of the nodal value and the lines of the two cells "
         "sharing the node, plus rounding, and rejects everything outside it), mid-cells of the first / last cell; file round trips of values with 7..17 significant digits (large "
